@@ -34,6 +34,11 @@ type config struct {
 	Seams []seamRule `json:"seams"`
 	// packages (path suffix match) in which os.* calls are NOT rewritten
 	Skip []string `json:"skip"`
+	// packages (path substring match) whose unsynchronised shared memory is modelled: a map write
+	// becomes a two-step operation with a scheduling point in between (a second writer arriving in
+	// between is what the Go runtime reports as "concurrent map writes"), and a read-modify-write of
+	// a variable captured by a function literal gets a scheduling point between read and write
+	Racy []string `json:"racy"`
 }
 
 var (
@@ -54,7 +59,7 @@ var osFuncs = map[string]bool{
 var syncTypes = map[string]bool{"Pool": true, "Mutex": true, "RWMutex": true, "Once": true, "Cond": true, "NewCond": true, "Locker": true}
 
 type stats struct {
-	mutex, gostmt, wrap, resume, maprange, bolt, osrw, seam, skipped int
+	mutex, gostmt, wrap, resume, maprange, bolt, osrw, seam, skipped, racy int
 }
 
 type fileCtx struct {
@@ -151,8 +156,8 @@ pk:
 	for _, w := range warns {
 		fmt.Fprintln(os.Stderr, "instrument: warning:", w)
 	}
-	fmt.Printf("instrument %s: mutex-types=%d go=%d wrapped=%d resume=%d maprange=%d bolt=%d os=%d seam=%d skipped=%d\n",
-		*flagDir, st.mutex, st.gostmt, st.wrap, st.resume, st.maprange, st.bolt, st.osrw, st.seam, st.skipped)
+	fmt.Printf("instrument %s: mutex-types=%d go=%d wrapped=%d resume=%d maprange=%d bolt=%d os=%d seam=%d racy=%d skipped=%d\n",
+		*flagDir, st.mutex, st.gostmt, st.wrap, st.resume, st.maprange, st.bolt, st.osrw, st.seam, st.racy, st.skipped)
 }
 
 func fatal(err error) {
@@ -606,6 +611,11 @@ func (c *fileCtx) rewriteStmt(s ast.Stmt) []ast.Stmt {
 				return []ast.Stmt{v, c.resumeStmt()}
 			}
 		}
+		if c.isRacy() {
+			if r := c.rewriteRacyAssign(v); r != nil {
+				return r
+			}
+		}
 	case *ast.DeclStmt:
 		if c.exprBlocks(v.Decl) {
 			return []ast.Stmt{v, c.resumeStmt()}
@@ -644,6 +654,103 @@ func (c *fileCtx) rewriteStmt(s ast.Stmt) []ast.Stmt {
 		}
 	}
 	return []ast.Stmt{s}
+}
+
+func (c *fileCtx) isRacy() bool {
+	for _, r := range c.cfg.Racy {
+		if strings.Contains(c.pkg.PkgPath, r) {
+			return true
+		}
+	}
+	return false
+}
+
+// simpleOperand: an identifier or a selector chain of identifiers (safe to evaluate twice).
+func simpleOperand(e ast.Expr) bool {
+	switch v := e.(type) {
+	case *ast.Ident:
+		return true
+	case *ast.SelectorExpr:
+		return simpleOperand(v.X)
+	case *ast.ParenExpr:
+		return simpleOperand(v.X)
+	}
+	return false
+}
+
+func mentions(e ast.Expr, obj types.Object, info *types.Info) bool {
+	found := false
+	ast.Inspect(e, func(n ast.Node) bool {
+		if id, ok := n.(*ast.Ident); ok && info.Uses[id] == obj {
+			found = true
+		}
+		return !found
+	})
+	return found
+}
+
+// rewriteRacyAssign models unsynchronised shared memory (see config.Racy).
+func (c *fileCtx) rewriteRacyAssign(v *ast.AssignStmt) []ast.Stmt {
+	if len(v.Lhs) != 1 || len(v.Rhs) != 1 || v.Tok == token.DEFINE {
+		return nil
+	}
+	// (a) map element write
+	if ix, ok := v.Lhs[0].(*ast.IndexExpr); ok && simpleOperand(ix.X) {
+		if t := c.info.TypeOf(ix.X); t != nil {
+			if _, isMap := t.Underlying().(*types.Map); isMap {
+				tmp := c.tmpName()
+				c.needRT = true
+				c.st.racy++
+				return []ast.Stmt{
+					assign(token.DEFINE, []ast.Expr{ast.NewIdent(tmp)}, call(sel("simrt", "MapWriteBegin"), ix.X, lit(c.siteAt("mapwrite", v)))),
+					v,
+					&ast.ExprStmt{X: call(sel("simrt", "MapWriteEnd"), ast.NewIdent(tmp))},
+				}
+			}
+		}
+		return nil
+	}
+	// (b) read-modify-write of a variable captured by the enclosing function literal
+	id, ok := v.Lhs[0].(*ast.Ident)
+	if !ok || id.Name == "_" {
+		return nil
+	}
+	obj, _ := c.info.Uses[id].(*types.Var)
+	if obj == nil || obj.IsField() || obj.Parent() == nil || obj.Parent() == c.pkg.Types.Scope() {
+		return nil
+	}
+	path, _ := astutil.PathEnclosingInterval(c.file, v.Pos(), v.End())
+	var fl *ast.FuncLit
+	for _, n := range path {
+		if f, ok := n.(*ast.FuncLit); ok {
+			fl = f
+			break
+		}
+	}
+	if fl == nil || (obj.Pos() >= fl.Pos() && obj.Pos() <= fl.End()) {
+		return nil
+	}
+	var rhs ast.Expr
+	switch v.Tok {
+	case token.ASSIGN:
+		if !mentions(v.Rhs[0], obj, c.info) {
+			return nil
+		}
+		rhs = v.Rhs[0]
+	case token.ADD_ASSIGN, token.SUB_ASSIGN, token.MUL_ASSIGN, token.OR_ASSIGN, token.AND_ASSIGN:
+		op := map[token.Token]token.Token{token.ADD_ASSIGN: token.ADD, token.SUB_ASSIGN: token.SUB, token.MUL_ASSIGN: token.MUL, token.OR_ASSIGN: token.OR, token.AND_ASSIGN: token.AND}[v.Tok]
+		rhs = &ast.BinaryExpr{X: ast.NewIdent(id.Name), Op: op, Y: &ast.ParenExpr{X: v.Rhs[0]}}
+	default:
+		return nil
+	}
+	tmp := c.tmpName()
+	c.needRT = true
+	c.st.racy++
+	return []ast.Stmt{
+		assign(token.DEFINE, []ast.Expr{ast.NewIdent(tmp)}, rhs),
+		&ast.ExprStmt{X: call(sel("simrt", "Resume"), lit(c.siteAt("rmw", v)))},
+		assign(token.ASSIGN, []ast.Expr{ast.NewIdent(id.Name)}, ast.NewIdent(tmp)),
+	}
 }
 
 func (c *fileCtx) rewriteReturn(v *ast.ReturnStmt) []ast.Stmt {
